@@ -175,6 +175,32 @@ def h05b_shards(tier):
     return out
 
 
+# ---------------------------------------------------------------- H05f TXT-like types under the txt_is_utf8 style
+
+UTF8_POOL = [b"plain", "caf\u00e9".encode(), "\u4e2d\u6587".encode(), "\U0001f600".encode(), b"ctl\x00\x1f\x7f", b'q"b\\s',
+             b"\xc2\x80", b"\xc2\x85", b"\xc2\xa0", b"\xc2\xad", b"\xe2\x80\x8b", b"\xe2\x80\xa8", b"\xef\xbb\xbf", b"\xee\x80\x80",
+             b"\xff\xfe", b"\xc2", b"a\xc2\x85b", b" ", b";", b"\xcd\xb8"]
+TXT_LIKE = ["TXT", "SPF", "AVC", "NINFO", "RESINFO", "WALLET"]
+
+
+def h05f(ti: int, p1: int, p2: int, two: bool) -> bool:
+    """Text written with RdataStyle(txt_is_utf8=True) - documented as lossless - parses back to an equal record for every pooled string:
+    ASCII incl. controls and quotes, printable non-ASCII, non-printable non-ASCII code points (C1 controls, NBSP, soft hyphen, zero-width
+    space, line separator, BOM, private use, unassigned), invalid UTF-8."""
+    t = dns.rdatatype.from_text(TXT_LIKE[ti])
+    strings = [UTF8_POOL[p1]] + ([UTF8_POOL[p2]] if two else [])
+    wire = b"".join([bytes([len(x)]) + x for x in strings])
+    rd = dns.rdata.from_wire(IN, t, wire, 0, len(wire))
+    text = rd.to_text(style=dns.rdata.RdataStyle(txt_is_utf8=True))
+    hit("printed")
+    back = dns.rdata.from_text(IN, t, text)
+    return back == rd and back.to_wire() == wire
+
+
+def h05f_pre(ti, p1, p2, two):
+    return 0 <= ti < len(TXT_LIKE) and 0 <= p1 < len(UTF8_POOL) and 0 <= p2 < len(UTF8_POOL) and (two or p2 == 0) and (S("two") == two)
+
+
 # ---------------------------------------------------------------- H05c generic (RFC 3597) form
 
 def h05c(ti: int, pick: int, as_unknown: bool) -> bool:
@@ -300,6 +326,12 @@ HARNESSES = [
                      "dns.tokenizer.Token.unescape_to_bytes", "dns.rdata._styled_base64ify", "dns.rdata._styled_hexify", "dns.name.Name.to_text", "dns.name.from_text"],
             bound="for every specimen and every int / bytes / Name field: ints over the field's whole unsigned range when it is <= 16 bits (thorough: also 32 / 48 bits) and otherwise a symbolic selection from a 30-value boundary pool (also for type mnemonics, signature times, Chaosnet addresses), character-strings of <= 2 (3) fully symbolic octets, names of one or two symbolic one-octet labels (relative or under example.), base64/hex fields from a pool of 10 octet strings; origin and relativize symbolic",
             stubs=["E2", "E3", "E4", "E5", "E6"], outside="longer strings; list-valued fields; IPv6 / float text (H05d pools)"),
+    Harness("H05f", h05f, h05f_pre, lambda tier: [{"two": False, "_timeout": 600, "_path_timeout": 60}] + ([{"two": True, "_timeout": 1800, "_path_timeout": 60}] if tier == "thorough" else []),
+            kind="finite selection, exhaustive",
+            encodes=["dns.rdtypes.txtbase.TXTBase.to_styled_text", "dns.rdata._escapify_unicode", "dns.rdata._escapify", "dns.tokenizer.Token.unescape_to_bytes",
+                     "dns.rdtypes.txtbase.TXTBase.from_text"],
+            bound="6 TXT-like types x 20 pooled character-strings (thorough: pairs of strings) written with txt_is_utf8=True", stubs=["E3b"],
+            outside="other strings (str.decode / str.isprintable are C code: a symbolic string would be realized)"),
     Harness("H05c", h05c, h05c_pre, h05c_shards, kind="finite selection",
             encodes=["dns.rdata.Rdata.to_generic", "dns.rdata.GenericRdata.to_styled_text", "dns.rdata.from_text", "dns.rdata.GenericRdata.from_text"],
             bound="generic form of every type's specimen parsed as the known type; unknown type 65280 with 10 pooled data values", stubs=[], outside="symbolic data (hex conversion realizes)"),
